@@ -103,9 +103,16 @@ def main(tier):
         s2, o2, e2 = api.run_script(alone, wd, "a%d" % i, prec=prec)
         v1 = api.validate_calls(wd, "f%d" % i, o1) if s1 == "exit:0" else None
         v2 = api.validate_calls(wd, "a%d" % i, o2) if s2 == "exit:0" else None
-        return a, s1, s2, v1, v2, e1, e2
-    for (i, pre, pro, prec, full, alone), s1, s2, v1, v2, e1, e2 in common.pmap(one, items):
+        sr = api.validate_stack(wd, "f%d" % i, o1)[0] if s1 == "exit:0" else None     # hidden state of the workspace stack carried between calls
+        return a, s1, s2, v1, v2, e1, e2, sr
+    for (i, pre, pro, prec, full, alone), s1, s2, v1, v2, e1, e2, sr in common.pmap(one, items):
         key = "pp:%s:%s|%s" % (prec, json.dumps(pre, sort_keys=True), json.dumps(pro, sort_keys=True))
+        if sr is not None and not tlc.inconclusive(sr):
+            ck.notes["stack_events_validated"] = ck.notes.get("stack_events_validated", 0) + len(sr["events"])
+            if not sr["ok"]:
+                rl = sr["rejected_line"]
+                ck.violation("stack:" + key, "precision %s: the caller's workspace stack left SluStack (%s) at event %s: %s after %s (state carried over from an earlier call?)" % (
+                    prec, sr["violated"] or "step not allowed", rl, sr["events"][rl - 1] if rl else "?", sr["events"][rl - 2] if rl and rl > 1 else "start"), {"script_full": full})
         ck.case(key, sample={"precision": prec, "prefix": pre, "probe": pro} if len(ck.cov["samples"]) < 3 else None)
         if s2 != "exit:0":
             ck.notes["probe_alone_failed"] = ck.notes.get("probe_alone_failed", 0) + 1
